@@ -352,10 +352,23 @@ func cmdList(args []string) int {
 	repo := fs.String("repo", "/repo", "repository root")
 	verbose := fs.Bool("v", false, "print every obligation")
 	only := fs.String("rule", "", "only this rule")
+	patch := fs.String("patch", "", "apply this unified diff in memory first")
+	onlyCfg := fs.String("config", "", "only this configuration (default|vectors)")
 	fs.Parse(args)
 	status := 0
+	var ov map[string][]byte
+	if *patch != "" {
+		var err error
+		if ov, err = overlayFromPatch(*repo, *patch); err != nil {
+			fmt.Println(err)
+			return 1
+		}
+	}
 	for _, c := range []Config{cfgDefault, cfgVectors} {
-		p, err := loadProgram(*repo, c)
+		if *onlyCfg != "" && c.Name != *onlyCfg {
+			continue
+		}
+		p, err := loadProgramOverlay(*repo, c, ov)
 		if err != nil {
 			fmt.Println("LOAD ERROR", c.Name, err)
 			return 1
@@ -486,12 +499,21 @@ func cmdDump(args []string) int {
 	fs := flag.NewFlagSet("dump", flag.ExitOnError)
 	repo := fs.String("repo", "/repo", "repository root")
 	vec := fs.Bool("vectors", false, "vectors configuration")
+	patch := fs.String("patch", "", "apply this unified diff in memory first")
 	fs.Parse(args)
 	cfg := cfgDefault
 	if *vec {
 		cfg = cfgVectors
 	}
-	p, err := loadProgram(*repo, cfg)
+	var ov map[string][]byte
+	if *patch != "" {
+		var err error
+		if ov, err = overlayFromPatch(*repo, *patch); err != nil {
+			fmt.Println(err)
+			return 1
+		}
+	}
+	p, err := loadProgramOverlay(*repo, cfg, ov)
 	if err != nil {
 		fmt.Println(err)
 		return 1
